@@ -1343,6 +1343,46 @@ MATCHERS = {
     'removal_order_attr': _match_removal_order_attr,
 }
 
+# ---------------------------------------------------------------------------
+# part: attribute chains (fixed cases)
+
+def _chain_case(key, value, mode):
+    """A later link matches on a value that only exists because an earlier link wrote it (on every atom of the residue)."""
+    nodes = [
+        [0, {"atomname": "BB", "resname": "HIS", "resid": 1, "chain": "A", "atype": "P1", "charge": 0.0, "position": [0.0, 0.0, 0.0], "cgsecstruc": "C"}],
+        [1, {"atomname": "SC1", "resname": "HIS", "resid": 1, "chain": "A", "atype": "C2", "charge": 0.0, "position": [0.3, 0.1, 0.0], "cgsecstruc": "C"}],
+        [2, {"atomname": "BB", "resname": "ALA", "resid": 2, "chain": "A", "atype": "P1", "charge": 0.0, "position": [0.4, 0.4, 0.1], "cgsecstruc": "C"}],
+        [3, {"atomname": "BB", "resname": "HIS", "resid": 3, "chain": "A", "atype": "P1", "charge": 0.0, "position": [0.8, 0.5, 0.2], "cgsecstruc": "H"}],
+        [4, {"atomname": "SC1", "resname": "HIS", "resid": 3, "chain": "A", "atype": "C2", "charge": 0.0, "position": [1.0, 0.8, 0.2], "cgsecstruc": "H"}]]
+    first = {"all": [], "nodes": [
+        {"key": "BB", "order": 0, "attrs": [["atomname", ["=", "BB"]], ["cgsecstruc", ["=", "H"]]], "replace": {key: value}},
+        {"key": "SC1", "order": 0, "attrs": [["atomname", ["=", "SC1"]]], "replace": {key: value}}],
+        "edges": [["BB", "SC1"]], "inter": [], "removed": [], "non_edges": [], "patterns": [], "molmeta": [], "features": [],
+        "style": [0] * 16}
+    second = {"all": [], "nodes": [
+        {"key": "BB", "order": 0, "attrs": [["atomname", ["=", "BB"]], [key, ["=", value]]], "replace": None},
+        {"key": "SC1", "order": 0, "attrs": [["atomname", ["=", "SC1"]]], "replace": None}],
+        "edges": [["BB", "SC1"]], "inter": [["bonds", ["BB", "SC1"], ["1", "0.33", "5000"], {}]], "removed": [], "non_edges": [],
+        "patterns": [], "molmeta": [], "features": [], "style": [0] * 16}
+    return {"mode": mode, "mol": {"meta": {"moltype": "mol_0"}, "nodes": nodes, "edges": [[0, 1], [0, 2], [2, 3], [3, 4]], "inter": []},
+            "links": [first, second], "chain_key": key}
+
+
+def _enum_chains(tier, shard, nshards):
+    cases = [_chain_case(key, value, mode) for key, value in (('resname', 'HIP'), ('atype', 'SQ9'), ('mark', 7))
+             for mode in ('object', 'text')]
+    for idx, case in enumerate(cases):
+        if idx % nshards == shard:
+            yield case
+
+
+def _run_chain(case):
+    out = _run_toy({k: v for k, v in case.items() if k != 'chain_key'})
+    if 'some-placement' not in out.classes:
+        raise HarnessError('attribute-chain case without a placement')
+    return Outcome(list(out.classes) + ['chain:' + case['chain_key']], True)
+
+
 PARTS = [
     Part('toy', _run_toy, strategy=_strategy_toy,
          examples={'quick': 1400, 'thorough': 30000},
@@ -1352,6 +1392,7 @@ PARTS = [
                  'removed-hits': 0.04, 'overrides': 0.08, 'node-deleted': 0.04, 'replace-applied': 0.1,
                  'symmetric-placements': 0.015, 'effector': 0.2, 'self-replaced': 0.02}),
     Part('order-table', _run_table, enumerate=_enumerate_table),
+    Part('attribute-chains', _run_chain, enumerate=_enum_chains),
     Part('shipped', _run_shipped, strategy=_strategy_shipped,
          examples={'quick': 320, 'thorough': 6000},
          floors={'removed-hits': 0.2, 'overrides': 0.15, 'effector': 0.05}),
